@@ -130,6 +130,13 @@ func (C11) Gen(rng *core.Rng, tier string, idx int) *core.Scenario {
 		if rng.Chance(0.3) {
 			cfg.Continuous = true
 		}
+		if rng.Chance(0.3) {
+			// plain $Number$ templates: the list of Periods is then the only thing that changes, and the publishTime
+			// (hence the PatchLocation) follows the Period changes alone
+			cfg.MPDType = "number"
+		}
+	} else if rng.Chance(0.03) {
+		cfg.MPDType = "number" // never changes: every patch request is answered 425
 	}
 	// availabilityTimeOffset: finite, below / equal to / above the segment duration, with and
 	// without chunked (low-latency) mode; biased towards a tsbd that is no multiple of the
@@ -731,6 +738,12 @@ func c11LiveOp(res *core.Result, srv *hx.Srv, a *refmodel.Asset, w c11World, fea
 
 	switch {
 	case beyond:
+		if same && rp.Status == 425 {
+			// nothing changed AND beyond the time-to-live (an MPD that never changes, e.g. plain $Number$ templates):
+			// the statement gives 425 for the first and 410 for the second and does not say which wins; both are accepted
+			res.Count("probe.unchanged-beyond-ttl-425")
+			return
+		}
 		if rp.Status != 410 {
 			res.Violate("C11.ttl-410", sig("kind", "expected-410", "status", fmt.Sprint(rp.Status)),
 				"%s: ttl %v s, t2-t1=%d ms, publishTime(t1)=%s: status %d", ctx, m1.ttlS, op.T2-op.T1, m1.publish, rp.Status)
